@@ -97,6 +97,29 @@ Theorem C03_well_framed : forall f q c hs added b w,
 Proof. exact well_framed. Qed.
 Print Assumptions C03_well_framed.
 
+(** histories of requests against ONE pipeline whose pool has a memoryCache (any cache
+    policy, any number of steps): every response - served by the backend or from the cache -
+    is the gateway's own failure or, well-framed, the status / end-to-end headers / (adapted)
+    content of a backend answer given up to that step; the handler never dies *)
+Theorem C03_history_faithful : forall f,
+  (forall x, f_gunzip f (f_gzip f x) = Some x) ->
+  forall q c s l,
+  q_compress_keeps_length q = false -> q_adaptor_body_keeps_length q = false -> q_stream_compress_panics q = false ->
+  Forall (fun rb => good_backend f (snd rb)) l ->
+  all_ok f c [] l (run_steps q f c no_edit s [] l).
+Proof. exact history_faithful. Qed.
+Print Assumptions C03_history_faithful.
+
+(** the cache hands out a copy: a hit answers from the stored entry and leaves the cache as it is *)
+Theorem C03_cache_hit_immutable : forall f q c e s st r b path qy h body ent,
+  f_parse_target f (cq_target r) = Some (path, qy) ->
+  request_adaptor f (p_ra c) (cq_headers r) (cq_body r) = Some (h, body) ->
+  loadable s (cq_method r) h = true ->
+  alookup (cache_key (cq_host r) path (cq_method r)) st = Some ent ->
+  step q f c e s st r b = (Answered (finish q f c e (resp_of_entry ent)) None, st).
+Proof. exact cache_hit_immutable. Qed.
+Print Assumptions C03_cache_hit_immutable.
+
 (** one witness per defect of the unchanged code: with that single switch on, a clause fails *)
 Theorem C03_refuted_compress_len :
   exists f c hs added b content w,
